@@ -84,8 +84,7 @@ def task(t):
                     g = T.zabs(r.term - bad) <= T.Q(tol.K64 * tol.U) * T.zabs(bad) if be == "f64" else T.zabs(r.term - bad) <= T.Q(tol.KDEC * tol.EPS * (1 + 1 / st_ + sf)) * (1 + T.zabs(a.term))
                     res, _ = sv.check([box, a.term != 0] + th.cons + o.pc + [f for _, f in th.side] + [z3.Not(g)])
                     R.vacuity.append("%s canary (wrong spec 2T+1): %s" % (pair, res))
-                    if res != "sat":
-                        R.inconclusive.append("%s: canary with a wrong specification was not refuted" % pair)
+                    E.canary_verdict(R, sv, pair, res, [box, a.term != 0] + th.cons + o.pc, [f for _, f in th.side])
         # ---------------- exactness obligations (T_uf)
         th = T.TUf(be)
         run = driver.Run(w, th)
